@@ -322,6 +322,8 @@ class C01(Check):
     # -------------------------------------------------------------- execute
     def execute(self, case):
         log = core.EventLog()
+        imgsim.fi()
+        imgsim.set_hash_salt(case.get('content') or case)
         stats = {'faults': {}, 'probes': {}, 'families': {}, 'sim': {},
                  'classes': {}, 'distinct': []}
         if 'engine' in case:
